@@ -140,30 +140,44 @@ type LeaderRevision struct {
 }
 
 func (r *revisionSyncer) singleFlightGetRevisionFromLeader() (uint64, error) {
-	v, err, _ := r.flight.Do("get_revision", func() (interface{}, error) {
-		// there is no guarantee about the schema of leader, so we just try one by one
-		for _, schema := range r.getRetrySchemas() {
-			r.schema = schema
-			rev, err := r.getRevisionFromLeader()
-			if err != nil {
-				if possibleSchemaMismatch(err) {
-					// switch schema and retry in next loop if possible
-					continue
-				}
+	// the revision fetched by a call in flight may have been sampled by leader before this read began,
+	// so only the result of a fetch that starts after this read began can be used: if the first call
+	// is joined rather than initiated, wait for it and call again. The second one is either initiated
+	// here or was initiated after the first one ended.
+	for attempt := 0; ; attempt++ {
+		initiated := false
+		v, err, _ := r.flight.Do("get_revision", func() (interface{}, error) {
+			initiated = true
+			return r.getRevisionFromLeaderWithRetry()
+		})
+		if initiated || attempt > 0 {
+			return v.(uint64), err
+		}
+	}
+}
 
-				// for others error, just return (maybe timeout)
-				return uint64(0), err
+func (r *revisionSyncer) getRevisionFromLeaderWithRetry() (interface{}, error) {
+	// there is no guarantee about the schema of leader, so we just try one by one
+	for _, schema := range r.getRetrySchemas() {
+		r.schema = schema
+		rev, err := r.getRevisionFromLeader()
+		if err != nil {
+			if possibleSchemaMismatch(err) {
+				// switch schema and retry in next loop if possible
+				continue
 			}
 
-			return rev, nil
+			// for others error, just return (maybe timeout)
+			return uint64(0), err
 		}
 
-		// maybe leader can be access by https only but current node is running without cert
-		err := status.Errorf(codes.Unavailable, "no suitable schema to leader")
-		klog.ErrorS(err, "can not get revision from leader", "leader", r.leaderElection.GetLeaderInfo())
-		return uint64(0), err
-	})
-	return v.(uint64), err
+		return rev, nil
+	}
+
+	// maybe leader can be access by https only but current node is running without cert
+	err := status.Errorf(codes.Unavailable, "no suitable schema to leader")
+	klog.ErrorS(err, "can not get revision from leader", "leader", r.leaderElection.GetLeaderInfo())
+	return uint64(0), err
 }
 
 func possibleSchemaMismatch(err error) bool {
